@@ -27,7 +27,7 @@ Fixpoint log_ok (l : list ev) : Prop :=
 
 (* ------------------------------------------------------------------ the invariant, by component *)
 Definition inv_t (ts : list tslot) (n : Z) : Prop :=
-  (forall i t, nth_error ts i = Some t -> t_exp t <> None -> t_state t = Active) /\
+  (forall i t, nth_error ts i = Some t -> (t_exp t <> None <-> t_state t = Active)) /\
   (forall i t, nth_error ts i = Some t -> t_uid t < n) /\
   (forall i j ti tj, nth_error ts i = Some ti -> nth_error ts j = Some tj ->
                      t_state ti <> Empty -> t_state tj <> Empty -> t_uid ti = t_uid tj -> i = j).
